@@ -1,4 +1,5 @@
-// ---- stand-in for std::collections::HashMap keyed by the abstraction `vkey` (see idmap.rs)
+// ---- stand-in for std::collections::HashMap keyed by the abstraction `vkey` (see idmap.rs); lookups accept any
+// borrowed form `Q` of the key with the same abstraction (std: `K: Borrow<Q>`)
 #[verifier::external_body]
 #[verifier::reject_recursive_types(K)]
 #[verifier::reject_recursive_types(V)]
@@ -8,11 +9,11 @@ impl<K: VKey, V> HashMap<K, V> {
     #[verifier::external_body]
     pub fn new() -> (r: Self) ensures r@ == Map::<K::K, V>::empty(), r@.dom().finite() { unimplemented!() }
     #[verifier::external_body]
-    pub fn get(&self, k: &K) -> (r: Option<&V>)
+    pub fn get<Q: VKey<K = K::K>>(&self, k: &Q) -> (r: Option<&V>)
         ensures match r { Some(v) => self@.contains_key(k.vkey()) && *v == self@[k.vkey()], None => !self@.contains_key(k.vkey()) }
     { unimplemented!() }
     #[verifier::external_body]
-    pub fn contains_key(&self, k: &K) -> (r: bool) ensures r == self@.contains_key(k.vkey()) { unimplemented!() }
+    pub fn contains_key<Q: VKey<K = K::K>>(&self, k: &Q) -> (r: bool) ensures r == self@.contains_key(k.vkey()) { unimplemented!() }
     #[verifier::external_body]
     pub fn insert(&mut self, k: K, v: V) -> (r: Option<V>)
         ensures final(self)@ == old(self)@.insert(k.vkey(), v), old(self)@.dom().finite() ==> final(self)@.dom().finite(),
@@ -27,4 +28,6 @@ impl<K: VKey, V> HashMap<K, V> {
         ensures final(self)@ == old(self)@.remove(k.vkey()),
             match r { Some(p) => old(self)@.contains_key(k.vkey()) && p == old(self)@[k.vkey()], None => !old(self)@.contains_key(k.vkey()) }
     { unimplemented!() }
+    #[verifier::external_body]
+    pub fn clear(&mut self) ensures final(self)@ == Map::<K::K, V>::empty(), final(self)@.dom().finite() { unimplemented!() }
 }
